@@ -132,6 +132,25 @@ def inside_close_after_peer_end(res, gw, rng, m):
     report.close()
 
 
+def same_size_same_mtime_rewrite(res, gw, moddir, modname, m):
+    """remote_exec(module) runs the module's source as it is now - also when an edit kept the file's size and a tool
+    restored its timestamps (caches keyed by size and mtime must not decide what is shipped)"""
+    path = os.path.join(moddir, modname + ".py")
+    with open(path, "w") as f:
+        f.write("VALUE = 111\nif __name__ == '__channelexec__':\n    channel.send(VALUE)\n")
+    importlib.invalidate_caches()
+    mod = importlib.import_module(modname)
+    first = gw.remote_exec(mod).receive(20)
+    st = os.stat(path)
+    with open(path, "w") as f:
+        f.write("VALUE = 222\nif __name__ == '__channelexec__':\n    channel.send(VALUE)\n")
+    os.utime(path, ns=(st.st_atime_ns, st.st_mtime_ns))
+    second = gw.remote_exec(mod).receive(20)
+    res.count("same_size_same_mtime_rewrites")
+    if (first, second) != (111, 222):
+        res.violation(m("module-rewritten-in-place-runs-stale-source"), f"{modname}: first run sent {first!r}, after the edit {second!r} (want 111, 222)")
+
+
 def run_programs(spec):
     import execnet
     from execnet.gateway_base import RemoteError
@@ -156,6 +175,8 @@ def run_programs(spec):
                 break
             if i % 15 == 7:
                 inside_close_after_peer_end(res, gw, rng, m)
+            if i % 15 == 3:
+                same_size_same_mtime_rewrite(res, gw, moddir, f"verif_c06_ss_{spec['shard']}_{i}", m)
             form = ("string", "function", "module")[i % 3]
             prog = dsl.gen_program(rng, g, big=(i % 17 == 0))
             if form != "function":
@@ -397,6 +418,10 @@ def pure_inner(channel):
     channel.send(("pure", 3))
 
 
+def posonly_channel(channel, /, n=2):
+    channel.send(("posonly", n))
+
+
 def counting(f):
     import functools
 
@@ -455,7 +480,7 @@ SHAPES = {
     "uses_shadowed_max": ("reject", {}), "uses_shadowed_len": ("reject", {}), "wrong_first": ("reject", {}), "no_args": ("reject", {}),
     "star_args": ("reject", {}), "channel_second": ("reject", {"x": 1}), "star_channel": ("reject", {}), "kwonly_channel": ("reject", {}),
     "starstar_channel": ("reject", {}), "method_like": ("reject", {}), "channel_with_default": ("ok", {}), "closure": ("reject", {}), "lam": ("reject", {}),
-    "decorated_wrapped": ("reject", {}), "wrapped_by_call": ("reject", {}), "pure_inner": ("ok", {}), "uses_global_statement": ("reject", {}), "nested_uses_global": ("reject", {}),
+    "decorated_wrapped": ("reject", {}), "wrapped_by_call": ("reject", {}), "pure_inner": ("ok", {}), "posonly_channel": ("ok", {}), "posonly_channel#kw": ("ok", {"n": 5}), "uses_global_statement": ("reject", {}), "nested_uses_global": ("reject", {}),
     "global_augassign": ("reject", {}), "global_store": ("reject", {}), "global_del": ("reject", {}), "attribute_of_global": ("reject", {}),
 }
 
